@@ -27,7 +27,7 @@ C12-no-digits-accepted-as-zero).
   (every valid format) is the full statement; debug build: `debug_panics_suffix_separator` ("1h_").
 * (c) `int_accepts_iff_grammar_partial` (C12): the complete parser accepts iff `Spec.grammarIntComplete` derives the
   input, with the same value; `int_accepts_iff_grammar_full` is FALSE (`not_int_accepts_iff_grammar_full`).
-* (d) `int_format_complete_iff_partial_partial` (C11 clause 1); witnesses I2, I3, I4.
+* (d) `int_format_complete_iff_partial_partial` (C11 clause 1); regression I2, witnesses I3, I4.
 -/
 namespace LexVerif.Props.C04Format
 open LexVerif LexVerif.Spec LexVerif.Model LexVerif.Model.ParseIntFormat LexVerif.Proof.PIF
@@ -281,7 +281,8 @@ example : complete ⟨featsRF, fmtNoPosSign, false⟩ ⟨8, true⟩ false [0x2b,
 
 /-! ## (d) C11 — the complete and the partial parser agree -/
 
-/-- **C11 clause 1 for the `format` build, full statement**: FALSE (`witness_I2`). -/
+/-- **C11 clause 1 for the `format` build, full statement**: OPEN (its former counter-example `"0"` under
+`no_integer_leading_zeros` was a defect, repaired: `regression_I2`; proved for `SimpleFmt` formats below). -/
 def int_format_complete_iff_partial_full : Prop :=
   ∀ (c : Cfg) (t : IntTy) (nm : Bool) (s : List Nat) (v : Int), c.feats.format = true → c.debug = false →
     (formatError c.feats c.fmt).isNone = true → Admissible ⟨c, t, false, nm⟩ → (∀ b ∈ s, b < 256) →
@@ -294,7 +295,7 @@ def int_format_partial_prefix_full : Prop :=
       partial_ c t nm s = .ok (v, n) → signLen t s < n → complete c t nm (s.take n) = .ok v
 
 /-- **(d) proved part — clause 1 under the weakest hypothesis found**: every `SimpleFmt` format (any sign flags, digits
-required or not). The three excluded ingredients each have a counter-example below: `no_integer_leading_zeros` (I2),
+required or not). The three excluded ingredients each have a counter-example below: `no_integer_leading_zeros` (not proved; its former counter-example I2 is repaired),
 base suffix (I3, clause 2), base prefix (I4, clause 2); separator formats: C11-partial-count-includes-trailing-separator. -/
 theorem int_format_complete_iff_partial_partial (c : Cfg) (t : IntTy) (nm : Bool) (hs : SimpleFmt c)
     (ha : Admissible ⟨c, t, false, nm⟩) (s : List Nat) (hb : ∀ b ∈ s, b < 256) (v : Int) :
@@ -350,11 +351,13 @@ def fmtNoLZ : Format := ⟨0xa0a0a0000000000000000000000100c⟩          -- no_i
 def fmtSuffixH : Format := ⟨0x1010106800000000000000000000000c⟩       -- radix 16, base suffix `h` (int_suffix_h)
 def fmtPrefixX : Format := ⟨0x1010100078000000000000000000000c⟩       -- radix 16, base prefix `x` (int_prefix_x)
 
-/-- **I2 (C11-int-no-leading-zeros-partial)**: `"0"` under `no_integer_leading_zeros`: complete `Ok(0)`, partial
-`Ok((0, 0))` — the index handed to `into_ok!` is `cursor - zeros` -/
-theorem witness_I2 :
+/-- **I2, regression (C11-int-no-leading-zeros-partial, repaired in /repo by "fix: partial integer parser must count the
+lone zero under no_integer_leading_zeros")**: `"0"` under `no_integer_leading_zeros`: complete `Ok(0)` and partial
+`Ok((0, 1))`. Before the repair the index handed to `into_ok!` was `cursor - zeros` and the partial parser returned
+`Ok((0, 0))`, which refuted clause 1. -/
+theorem regression_I2 :
     complete ⟨featsRF, fmtNoLZ, false⟩ ⟨32, true⟩ false [0x30] = .ok 0 ∧
-    partial_ ⟨featsRF, fmtNoLZ, false⟩ ⟨32, true⟩ false [0x30] = .ok (0, 0) := by decide
+    partial_ ⟨featsRF, fmtNoLZ, false⟩ ⟨32, true⟩ false [0x30] = .ok (0, 1) := by decide
 
 /-- **I3 (C11-int-base-suffix-partial)**: `"1+1"` with a base suffix: partial `Ok((1, 2))` (the byte after the digits
 is stepped over by `fmt_invalid_digit!`), complete `"1+"` → `InvalidDigit(1)` -/
@@ -366,13 +369,6 @@ theorem witness_I3 :
 theorem witness_I4 :
     partial_ ⟨featsRF, fmtPrefixX, false⟩ ⟨32, true⟩ false [0x30, 0x78, 0x67] = .ok (0, 2) ∧
     complete ⟨featsRF, fmtPrefixX, false⟩ ⟨32, true⟩ false [0x30, 0x78] = .error (.err "Empty" 2) := by decide
-
-theorem not_int_format_complete_iff_partial_full : ¬ int_format_complete_iff_partial_full := by
-  intro h
-  have := (h ⟨featsRF, fmtNoLZ, false⟩ ⟨32, true⟩ false [0x30] 0 rfl rfl (by decide)
-    ⟨by unfold IsIntTy; decide, by decide, by decide, by decide⟩ (by decide)).1 witness_I2.1
-  rw [witness_I2.2] at this
-  cases this
 
 theorem not_int_format_partial_prefix_full : ¬ int_format_partial_prefix_full := by
   intro h
